@@ -676,6 +676,10 @@ export class TypeofRuntype extends BaseRuntype {
   }
 
   protected describeTypeExpr(_ctx: DescribeContext): string {
+    // (the compiler emits a typeof check for a function-typed member as well; `function` is not a type)
+    if ((this.typeName as string) === "function") {
+      return "((...args: any[]) => any)";
+    }
     return this.typeName;
   }
   schema(ctx: SchemaContext): JSONSchema7 {
